@@ -159,8 +159,8 @@ def run_harness(scenarios, tag, shards=None, need_shim=True, timeout=3000):
         for s in scenarios:
             f.write(json.dumps(s) + "\n")
     env = dict(os.environ)
-    if need_shim:
-        env["LD_PRELOAD"] = SHIM_SO
+    # always preloaded: boundaries / faults where a scenario asks for them, and the watch for in-place writes under cas/
+    env["LD_PRELOAD"] = SHIM_SO
     procs = []
     outs = []
     for i in range(shards):
